@@ -37,6 +37,11 @@ type node struct {
 	body   *node   // while / do: first node of the body
 	target *node   // jump
 	test   *node   // do entry -> its test node (unused at run time)
+	// context of the statement (for reach probes only)
+	loopDepth, caseDepth int
+	fromSwitch           bool // break whose innermost breakable scope is a switch
+	afterJump            bool // label written right after a break/continue/goto/end in its block
+	sharedBody           bool // switch: some case shares a later body
 }
 
 // Program is a linked file.
@@ -46,10 +51,13 @@ type Program struct {
 	labels  map[string]*node // user labels and entry names
 	entries map[string]*node
 	autov   map[string]model.AutoVar
+	// link-time context
+	loopDepth, caseDepth int
+	inSwitchBreak        bool
 }
 
 func (p *Program) newNode(k nkind, s *model.Stmt) *node {
-	n := &node{id: len(p.nodes), kind: k, stmt: s}
+	n := &node{id: len(p.nodes), kind: k, stmt: s, loopDepth: p.loopDepth, caseDepth: p.caseDepth}
 	p.nodes = append(p.nodes, n)
 	return n
 }
@@ -78,6 +86,14 @@ func (p *Program) link(stmts []*model.Stmt, after, brk, cont *node) *node {
 			continue
 		}
 		next = p.build(stmts[i], next, brk, cont)
+		if stmts[i].K == model.KLabel && i > 0 {
+			switch prev := stmts[i-1]; {
+			case prev.K == model.KBreak, prev.K == model.KContinue:
+				next.afterJump = true
+			case prev.K == model.KCmd && (prev.Cmd.Name == "end" || prev.Cmd.Name == "return" || prev.Cmd.Name == "goto"):
+				next.afterJump = true
+			}
+		}
 	}
 	return next
 }
@@ -122,7 +138,12 @@ func (p *Program) build(s *model.Stmt, next, brk, cont *node) *node {
 	case model.KWhile:
 		n := p.newNode(nWhile, s)
 		n.next = next
+		p.loopDepth++
+		sb := p.inSwitchBreak
+		p.inSwitchBreak = false
 		n.body = p.link(s.Body, n, next, n)
+		p.inSwitchBreak = sb
+		p.loopDepth--
 		return n
 	case model.KDoWhile:
 		entry := p.newNode(nDoEntry, s)
@@ -131,11 +152,17 @@ func (p *Program) build(s *model.Stmt, next, brk, cont *node) *node {
 		test.body = entry
 		entry.test = test
 		// 'continue' returns to the start of the loop (README): the first body statement.
+		p.loopDepth++
+		sb := p.inSwitchBreak
+		p.inSwitchBreak = false
 		entry.body = p.link(s.Body, test, next, entry)
+		p.inSwitchBreak = sb
+		p.loopDepth--
 		return entry
 	case model.KBreak:
 		n := p.newNode(nJump, s)
 		n.target = brk
+		n.fromSwitch = p.inSwitchBreak
 		return n
 	case model.KContinue:
 		n := p.newNode(nJump, s)
@@ -150,7 +177,12 @@ func (p *Program) build(s *model.Stmt, next, brk, cont *node) *node {
 				n.firsts = append(n.firsts, nil)
 			} else {
 				// 'break' leaves the switch; 'continue' still belongs to the enclosing loop.
+				p.caseDepth++
+				sb := p.inSwitchBreak
+				p.inSwitchBreak = true
 				n.firsts = append(n.firsts, p.link(c.Body, next, next, cont))
+				p.inSwitchBreak = sb
+				p.caseDepth--
 			}
 		}
 		return n
@@ -391,6 +423,15 @@ func (m *machine) step(n *node) *node {
 				l := ArgString(&c.Args[0])
 				if t, ok := m.p.labels[l]; ok {
 					m.probe("user_goto_internal")
+					if t.loopDepth > n.loopDepth {
+						m.probe("goto_into_loop_body")
+					}
+					if t.caseDepth > n.caseDepth {
+						m.probe("goto_into_case_body")
+					}
+					if t.afterJump {
+						m.probe("goto_to_label_after_break_or_terminator")
+					}
 					return t
 				}
 				return m.finish("exit(" + l + ")")
@@ -421,6 +462,9 @@ func (m *machine) step(n *node) *node {
 		}
 		return n.els
 	case nWhile:
+		if n.caseDepth > 0 {
+			m.probe("loop_inside_case_body")
+		}
 		if n.stmt.Cond == nil || m.eval(n.stmt.Cond) {
 			return n.body
 		}
@@ -436,8 +480,20 @@ func (m *machine) step(n *node) *node {
 	case nJump:
 		if n.stmt.K == model.KBreak {
 			m.probe("break_executed")
+			if n.fromSwitch {
+				m.probe("break_leaves_switch")
+				if n.loopDepth > 0 {
+					m.probe("break_leaves_switch_inside_loop")
+				}
+			}
 		} else {
 			m.probe("continue_executed")
+			if n.target != nil && n.target.kind == nDoEntry {
+				m.probe("continue_in_dowhile")
+			}
+			if n.caseDepth > 0 {
+				m.probe("continue_inside_switch_case")
+			}
 		}
 		return n.target
 	case nSwitch:
